@@ -312,7 +312,9 @@ func (api *API) mapEncodeStructFields(
 			// implementation: those keys must not be keys of the other members of the struct, whether those are written
 			// this time or not
 			ownKeys := make(map[string]struct{})
-			if memberType := deRefPointers(sField.fType); memberType.Kind() == reflect.Struct {
+			if memberType := deRefPointers(sField.fType); hasJSONCodec(sField.fType) {
+				// (no keys that are known by the type)
+			} else if memberType.Kind() == reflect.Struct {
 				if memberTypeSettings, _ := api.typeSettingsRegistry.GetByType(memberType); memberTypeSettings.ObjectType() != nil {
 					ownKeys[keyType] = struct{}{}
 				}
@@ -381,6 +383,8 @@ func (api *API) collectStructKeys(structType reflect.Type, usedKeys map[string]s
 			}
 		case sField.settings.ts.fieldKey != nil:
 			err = occupy(*sField.settings.ts.fieldKey)
+		case sField.settings.inlined && hasJSONCodec(sField.fType):
+			// the member writes its map form itself: its keys depend on the value
 		case sField.settings.inlined && memberType.Kind() == reflect.Struct && memberType != timeType && memberType != bigIntPtrType.Elem():
 			if memberTypeSettings, _ := api.typeSettingsRegistry.GetByType(memberType); memberTypeSettings.ObjectType() != nil {
 				err = occupy(keyType)
